@@ -181,6 +181,8 @@ def scenario(ctx):
 		L = f'c{c}'
 		channel = ch.pick(['positional', 'listfile', 'sigfile'], L + '.channel')
 		n = ch.int(2, 7, L + '.n')
+		if ch.flip(0.15 if ctx.tier == 'thorough' else 0.04, L + '.many_leaves'):
+			n = ch.int(8, 14, L + '.n_many')      # tie search is capped; the cophenetic clause is skipped (and counted) beyond the cap
 		idxs = [ch.int(0, npool - 1, f'{L}.g{i}') for i in range(n)]
 		cores = ch.pick([None, 1, 2, 3, 4, 8, 16], L + '.cores')
 		progress = ch.flip(0.5, L + '.progress')
